@@ -170,9 +170,14 @@ def idle_epoch(ops):
 
 
 def known_match(f, case, detail):
-    # D15: only for pipelines with an epoch-dependent sampler, and only when some epoch saw no user request
-    return f["id"] == "D15" and case is not None and "sampler" in str(case["pipe"]) and idle_epoch(case["ops"]) and \
-        (ni.has_threads(case["pipe"]) or (case["restart"] and any(o[0] == "load" for o in case["ops"])))
+    # D15: only for pipelines with an epoch-dependent sampler, only when some epoch saw no user request, and only when the
+    # library itself pulls: read-ahead threads, a restore that pulls (Unbatcher/Prefetcher/ParallelMapper), or the restart look-ahead
+    if f["id"] != "D15" or case is None:
+        return False
+    p = str(case["pipe"])
+    loads = any(o[0] == "load" for o in case["ops"])
+    return "sampler" in p and idle_epoch(case["ops"]) and \
+        (ni.has_threads(case["pipe"]) or (loads and (case["restart"] or "unbatch" in p)))
 
 
 def widen(c, rng):
